@@ -25,10 +25,18 @@ type World struct {
 	// RecTexts are the record texts Input was assembled from, Prefix/Suffix the non-target
 	// context around them, Sep the separator emitted after each record (generated worlds only).
 	Prefix, Suffix string
+	Sep            string // emitted between two records (not after the last)
 	RecTexts       []string
-	Ext            map[string]string
-	UsesJS         bool
-	Generated      bool
+	// Logical records, their shape and the renderer (generated worlds only).
+	Shape     Shape
+	LRecs     []LRec
+	Render    func(LRec) string
+	CanDup    bool // Render honours LRec.Dup
+	encLatin1 bool // Input is the Latin-1 encoding of the texts
+	bom       bool // Input starts with a UTF-8 byte order mark
+	Ext       map[string]string
+	UsesJS    bool
+	Generated bool
 	// Tags describe structural facts used by known-finding matchers and reach probes
 	// (e.g. "envelope=header_footer", "encoding=iso-8859-1", "bom").
 	Tags map[string]string
@@ -71,18 +79,31 @@ func (w *World) Hash() uint64 {
 	return h.Sum64()
 }
 
-// Assemble builds Input and Recs from Prefix, RecTexts and Suffix.
+// Assemble builds Input and Recs from Prefix, RecTexts (joined by Sep) and Suffix, in the
+// world's stream encoding.
 func (w *World) Assemble() {
-	var sb strings.Builder
-	sb.WriteString(w.Prefix)
-	w.Recs = w.Recs[:0]
-	for _, r := range w.RecTexts {
-		st := sb.Len()
-		sb.WriteString(r)
-		w.Recs = append(w.Recs, simio.RecSpan{Start: st, End: sb.Len()})
+	enc := func(s string) []byte {
+		if w.encLatin1 {
+			return EncodeLatin1(s)
+		}
+		return []byte(s)
 	}
-	sb.WriteString(w.Suffix)
-	w.Input = []byte(sb.String())
+	var out []byte
+	if w.bom {
+		out = append(out, 0xEF, 0xBB, 0xBF)
+	}
+	out = append(out, enc(w.Prefix)...)
+	w.Recs = w.Recs[:0]
+	for i, r := range w.RecTexts {
+		if i > 0 {
+			out = append(out, enc(w.Sep)...)
+		}
+		st := len(out)
+		out = append(out, enc(r)...)
+		w.Recs = append(w.Recs, simio.RecSpan{Start: st, End: len(out)})
+	}
+	out = append(out, enc(w.Suffix)...)
+	w.Input = out
 }
 
 // WithRecs returns a copy of w whose input is assembled from the given record texts.
